@@ -121,7 +121,7 @@ class Probe:
         # associated constants (`Type::NAME`) and imported ones: a unique owner type is fine, several are ambiguous
         raise NoEval("constant %s is defined in several modules" % name)
 
-    def find_fn(self, segs):
+    def find_fn(self, segs, args=None):
         if len(segs) == 1:
             cands = [fn for fn in self.f.fns.values() if fn.impl is None and fn.name == segs[0] and not fn.test]
             same = [fn for fn in cands if tuple(fn.module) == self.module]
@@ -131,7 +131,25 @@ class Probe:
         ty = segs[-2]
         if ty == "Self":
             ty = self.selfty
-        return self.f.fns.get("%s::%s" % (ty, segs[-1]))
+        fn = self.f.fns.get("%s::%s" % (ty, segs[-1]))
+        if fn is not None or ty is None:
+            return fn
+        # a method of a trait the crate implements for the type (`Operator::try_from`, `Token::from`)
+        cands = [f_ for k_, f_ in self.f.fns.items() if not f_.test and _re.match(r"^<%s as [^>]*(<.*>)?>::%s$" % (_re.escape(ty), _re.escape(segs[-1])), k_)]
+        if len(cands) == 1:
+            return cands[0]
+        if len(cands) > 1 and args:
+            a0 = args[0]
+            want = None
+            if isinstance(a0, tuple) and len(a0) == 3 and a0[0] == "enum":
+                want = a0[1].split("::")[0]
+            elif isinstance(a0, dict) and a0.get("__ty"):
+                want = a0["__ty"]
+            if want is not None:
+                hit = [f_ for f_ in cands if _re.search(r"<%s>>::" % _re.escape(want), f_.key) or _re.search(r"<&%s>>::" % _re.escape(want), f_.key)]
+                if len(hit) == 1:
+                    return hit[0]
+        return None
 
     # ------------------------------------------------------------------ patterns
     def pmatch(self, p, v, env):
@@ -451,7 +469,7 @@ class Probe:
             b = self.builtin(fv[1]["segs"], list(args))
             if b is not NotImplemented:
                 return b
-            fn = self.find_fn(fv[1]["segs"])
+            fn = self.find_fn(fv[1]["segs"], list(args))
             if fn is not None:
                 if fn.node.get("self") is not None and args:
                     return self.invoke(fn, args[0], list(args[1:]))  # Type::method used as a function: first argument is self
@@ -566,7 +584,7 @@ class Probe:
         b = self.builtin(segs, args)
         if b is not NotImplemented:
             return b
-        fn = self.find_fn(segs)
+        fn = self.find_fn(segs, args)
         if fn is not None:
             return self.invoke(fn, None, args)
         if len(segs) >= 2 and segs[-1][:1].isupper():
@@ -666,6 +684,16 @@ class Probe:
             r = self.mhooks[m](self, e, env)
             if r is not NotImplemented:
                 return r
+        if m == "take" and not e["args"]:
+            # Option::take on a place: the value moves out, None stays behind
+            try:
+                cont, key = self.place(e["recv"], env)
+                cur = cont[key]
+            except (NoEval, KeyError):
+                cont = None
+            if cont is not None and (cur is None or (isinstance(cur, tuple) and cur and cur[0] == "some")):
+                cont[key] = None
+                return cur
         recv = self.ev(e["recv"], env)
         if m in ("unwrap", "expect") and (recv is None or (isinstance(recv, tuple) and recv and recv[0] in ("some", "ok", "err"))):
             if recv is None or recv[0] == "err":
